@@ -908,7 +908,11 @@ class t2grid(object):
         def match_position(geo, grid, ob):
             """Rotate and translate geometry as needed."""
             blks, sp = block_direction_track(grid, ob, 1)
-            angle =  0.5 * np.pi - vector_heading(blks[-1].centre[0:2] - ob.centre[:2])
+            if len(blks) > 1:
+                angle =  0.5 * np.pi - vector_heading(blks[-1].centre[0:2] - ob.centre[:2])
+            else: # single block in direction 1: use direction 2
+                blks, sp = block_direction_track(grid, ob, 2)
+                angle = -vector_heading(blks[-1].centre[0:2] - ob.centre[:2])
             from math import degrees
             angle = degrees(angle)
             geo.rotate(-angle, np.zeros(2))
